@@ -44,6 +44,12 @@ CORPUS = [
                {"kind": "P", "nout": 2, "inputs": [{"src": [2, 0], "chain": []}]},
                {"kind": "T", "start": 0, "steps": [sc.DAY], "initpull": False, "nout": 1, "inputs": []}],
      "end": 10 * sc.DAY},
+    # a relay with two outputs read by one consumer, the delayed link declared first
+    {"comps": [{"kind": "T", "start": 0, "steps": [sc.DAY], "initpull": False, "nout": 1, "inputs": []},
+               {"kind": "P", "nout": 2, "inputs": [{"src": [0, 0], "chain": []}]},
+               {"kind": "T", "start": 0, "steps": [5 * sc.DAY], "initpull": False, "nout": 0,
+                "inputs": [{"src": [1, 0], "chain": [["fixed", 3 * sc.DAY]]}, {"src": [1, 1], "chain": []}]}],
+     "end": 12 * sc.DAY},
     # F16 (known): a pull-based component read by two consumers with different steps
     {"comps": [{"kind": "T", "start": 0, "steps": [7], "initpull": False, "nout": 1, "inputs": []},
                {"kind": "P", "nout": 1, "inputs": [{"src": [0, 0], "chain": []}]},
@@ -62,8 +68,10 @@ def generate(rng, tier):
             cases.append(sc.gen_dag(rng))
         elif m < 8:
             cases.append(sc.gen_ring(rng, sufficient=True))
-        elif m == 8:
+        elif m == 8 and i % 20 == 8:
             cases.append(sc.gen_dag(rng, shared_pull=True))
+        elif m == 8:
+            cases.append(sc.gen_pipeline(rng) if i % 40 == 18 else (sc.gen_shared_equal(rng) if i % 40 == 28 else sc.gen_relay2(rng)))
         else:
             cases.append(sc.gen_ring(rng))
     return cases
